@@ -101,7 +101,7 @@
 //!
 //! ## Order and budget
 //! Histories are processed level by level (shortest first, configurations interleaved) from a
-//! work queue; when the wall-clock budget is used up (`Ctx::used()` ≥ 0.8 quick / 0.92
+//! work queue; when the wall-clock budget is used up (`Ctx::used()` ≥ 0.93 quick / 0.92
 //! thorough) the longest histories are dropped and the evidence says `exhaustive:false`.
 
 use std::cell::Cell;
@@ -271,10 +271,12 @@ enum Act {
     /// `RecursiveChallenger::clear` (native: a fresh challenger, as in C05)
     Clear,
 }
-const ALPHABET: [Act; 6] = [Act::Obs, Act::Sample, Act::ObsExt, Act::SampleExt, Act::Bits3, Act::Clear];
+const ALPHABET: [Act; 5] = [Act::Obs, Act::Sample, Act::ObsExt, Act::SampleExt, Act::Bits3];
 /// Actions that re-use an existing target; only inside histories of length <= the re-observe
 /// depth bound (see `bfs_states`).
-const REUSE: [Act; 3] = [Act::ReObs, Act::ReObsExt, Act::ObsSample];
+/// `clr` is bounded the same way (it returns the challenger to its initial automaton state, so
+/// longer histories through it repeat shorter ones over a fresh transcript).
+const REUSE: [Act; 4] = [Act::ReObs, Act::ReObsExt, Act::ObsSample, Act::Clear];
 
 impl Act {
     fn token(&self) -> &'static str {
@@ -315,6 +317,7 @@ impl Act {
             Act::ReObs => h.contains(&Act::Obs),
             Act::ReObsExt => h.contains(&Act::ObsExt),
             Act::ObsSample => h.contains(&Act::Sample),
+            Act::Clear => !h.is_empty(),
             _ => true,
         }
     }
@@ -1495,8 +1498,8 @@ fn main() {
     }
     let prove_all = ctx.opt("prove") == Some("all");
     FULL_PUBLIC_FAULTS.store(!ctx.quick(), Ordering::Relaxed);
-    // soft cap: leave room for the proofs in flight and the evidence (quick: 45 s * 0.8 = 36 s)
-    let cap = if ctx.quick() { 0.8 } else { 0.92 };
+    // soft cap: leave room for the proofs in flight and the evidence (quick: 45 s * 0.93 = 41.8 s; one history takes < 1 s)
+    let cap = if ctx.quick() { 0.93 } else { 0.92 };
     let over = || ctx.used() >= cap;
 
     // states of the automaton per configuration
@@ -1801,7 +1804,7 @@ fn main() {
         "exhaustive": exhaustive,
         "depth_bound": depth,
         "alphabet": ALPHABET.iter().chain(REUSE.iter()).map(|a| a.token()).collect::<Vec<_>>(),
-        "alphabet_legend": "op observe(public base element); xp observe_ext(public extension element); s sample; sx sample_ext; b3 sample_bits(3); clr clear (native: a fresh challenger); target re-use (only inside histories of length <= reuse_depth_bound): ro observe again the target of the most recent op; rx observe_ext again the target of the most recent xp; os observe the target returned by the most recent s; every history is followed by one more s",
+        "alphabet_legend": "op observe(public base element); xp observe_ext(public extension element); s sample; sx sample_ext; b3 sample_bits(3); target re-use and clear (only inside histories of length <= reuse_depth_bound): clr clear (native: a fresh challenger); ro observe again the target of the most recent op; rx observe_ext again the target of the most recent xp; os observe the target returned by the most recent s; every history is followed by one more s",
         "reuse_depth_bound": rdepth,
         "histories_with_target_reuse": plan.iter().filter(|(_, h)| h.iter().any(|a| a.reuse())).count(),
         "configurations": per_cfg,
